@@ -57,3 +57,20 @@ def generic_replay(ctx, data: dict, run_one) -> int:
         print('  recorded oracle message:', data['message'])
         status = 1
     return status
+
+
+EPOCH = None
+
+
+def as_num(values):
+    """numeric view of an array for comparison / printing: datetimes and timedeltas as seconds (since 2000-01-01),
+    NaT as NaN; everything else as float64"""
+    import numpy as np
+    a = np.asarray(values)
+    if a.dtype.kind == 'M':
+        out = (a.astype('datetime64[ns]') - np.datetime64('2000-01-01T00:00:00', 'ns')) / np.timedelta64(1, 's')
+        return np.where(np.isnat(a), np.nan, out).astype('f8')
+    if a.dtype.kind == 'm':
+        out = a.astype('timedelta64[ns]') / np.timedelta64(1, 's')
+        return np.where(np.isnat(a), np.nan, out).astype('f8')
+    return np.asarray(a, dtype='f8')
